@@ -31,6 +31,7 @@ CLAIMED = {
  "C17": ("7/C17", "symbolic receiver pre-state (any field values, which subsumes values decoded by earlier calls) and every byte string up to the per-type bound (uu 30..46, date 0..11, roman 0..7, sem 0..7, size text 0..5, date binary 0..9, Scan over five dynamic types): failed UnmarshalText/UnmarshalBinary/Scan leave the receiver bit-identical, input bytes unchanged, string and []byte instantiations agree on value and on the fields the error message is built from, parsed values do not alias the input buffer."),
  "C18": ("7/C18", "no panic (every runtime-panic site and explicit panic is a verification condition) for every byte string up to the per-package bound incl. non-ASCII and invalid UTF-8, under a fully symbolic rule word and MaxInputLength >= 0, through every text entry point of date, roman, sem, size (text rules) and uu, the comparator and Ver.Valid on arbitrary field strings up to 3+3 bytes (thorough 5+5); limit contract with symbolic MaxInputLength at lengths 1..n, default-1, default, default+1 and 10x default (long inputs with concrete valid filler). size with JSON rules is covered on templates only (C12); memory consumption is not modelled."),
  "C19": ("7/C19", "all 2^126 pairs of 63-bit draws: version 4 / variant 1; each of the 122 free bits can be 0 and 1 (thorough: adjacent pairs take all four values); lock discipline: see evidence (schedule encoding)."),
+ "C20": ("7/C20", "the six helpers (Marshal/Unmarshal x Text/Binary/JSON) on scripted marshaler/unmarshaler types (value and pointer receivers): one case with every combination of behaviour (right data, other data, error, error with data, panic) x error predicate (none, AnyError, Error(matching), Error(other), ErrorHasPrefix, ErrorHasSuffix) x constraint (none, OnlyMarshal, OnlyUnmarshal) x before/after hooks (nil, pass, fail, panic), symbolic data bytes: a failure is recorded iff an independent per-case oracle says the case is not satisfied, no panic escapes; a type lacking the interface gives one failure and FailNow; in a three-case list every failing applicable case is reported once and the other direction's case is ignored. testify's assertions are contract stubs (documented result; Errorf exactly on false)."),
 }
 NA_REASON = "check not built yet (framework under construction; see DESIGN.md section 10)"
 
